@@ -355,6 +355,7 @@ func writeFile() {
 		return sp.Build(sp.Cfg{Ctor: 0, TF: smf.MetricTicks(96)}, al, ops)
 	}
 	path := dir + "/song.mid"
+	path2 := dir + "/direct.mid"
 	for _, seq := range [][]int{{1}, {40, 2}, {2, 40, 3}, {10, 10}, {200, 1, 0}} {
 		os.Remove(path)
 		for _, n := range seq {
@@ -377,6 +378,32 @@ func writeFile() {
 					"what": fmt.Sprintf("the file holds %d bytes, WriteTo emits %d (the path held another file before)", len(got), want.Len())})
 			}
 			ctx.Add("writefile_cases", 1)
+			// WriteTo straight into an *os.File: the file holds the bytes and the
+			// size says so; into a descriptor that takes nothing the size is 0
+			for _, kind := range []string{"good-file", "read-only-descriptor"} {
+				os.WriteFile(path2, nil, 0o644)
+				var f *os.File
+				if kind == "good-file" {
+					f, _ = os.Create(path2)
+				} else {
+					f, _ = os.Open(path2)
+				}
+				if f == nil {
+					continue
+				}
+				var size int64
+				c := engine.Catch(func() { size, werr = in.Clone().S.WriteTo(f) })
+				f.Close()
+				got, _ = os.ReadFile(path2)
+				switch {
+				case c.Panicked:
+					ctx.Violation(c.Sig+":WriteTo-os-file", map[string]interface{}{"kind": "writefile", "events": n, "what": "WriteTo into an *os.File panicked: " + c.Value})
+				case size != int64(len(got)) || (kind == "good-file" && (werr != nil || !bytes.Equal(got, want.Bytes()))):
+					ctx.Violation("size:os-file:"+kind, map[string]interface{}{"kind": "writefile", "events": n,
+						"what": fmt.Sprintf("WriteTo into an *os.File (%s): error %v, reported size %d, the file holds %d bytes, the value has %d", kind, werr, size, len(got), want.Len())})
+				}
+				ctx.Add("writefile_cases", 1)
+			}
 		}
 	}
 }
